@@ -17,7 +17,7 @@ def harness_jobs(lib, label, full, masked_only=False, thorough=False):
         return build.build_prog(name, srcs, lib, opt="-O1", **kw)
 
     c01 = prog("c01", ["harness/c01.c", "harness/cpp_shim.cpp"] + STD)
-    c02 = prog("c02", ["harness/c02.c"] + STD)
+    c02 = prog("c02", ["harness/c02.c", "harness/cpp_shim.cpp"] + STD)
     c09 = prog("c09", ["harness/c09.c", "harness/cpp_shim.cpp"] + STD)
     for alg in range(3):
         jobs.append((c01, [alg, 3, 33, 0], label, EX))
@@ -29,7 +29,7 @@ def harness_jobs(lib, label, full, masked_only=False, thorough=False):
     if thorough or label.startswith("gcc-c64-") or label.startswith("gcc-c32-"):
         c17 = build.build_prog("c17", ["harness/c17.cpp", "harness/sysrand.c", "ref/ref.c"], lib, opt="-O1", cfg_dep=True)
         jobs.append((c17, [], label, EX))
-    c03 = prog("c03", ["harness/c03.c", "ref/ref.c"])
+    c03 = prog("c03", ["harness/c03.c", "harness/cpp_shim.cpp", "ref/ref.c"])
     c04 = prog("c04", ["harness/c04.c", "ref/ref.c"])
     c05 = prog("c05", ["harness/c05.c", "ref/ref.c"])
     c06 = prog("c06", ["harness/c06.c", "harness/cpp_shim.cpp"] + STD)
